@@ -636,6 +636,8 @@ def to_json(deck, env):
         'mats': {str(k): v for k, v in deck.mats.items()},
         'imp_ref': {k: [_num_json(v, env) for v in vals] for k, vals in getattr(deck, 'imp_ref', {}).items()},
         'lattice_opt': deck.lattice_opt,
+        'c10': [{'mat': i['mat'], 'entries': [[z, _num_json(f, env), sn] for z, f, sn in i['entries']], 'mixed': i['mixed'],
+                 'kwpos': i['kwpos'], 'rho': _num_json(i['rho'], env), 'rho_neg': i['rho_neg']} for i in getattr(deck, 'c10', [])],
     }
 
 
@@ -689,6 +691,9 @@ def from_json(j):
     d.imp_ref = {k: [_fr(v) for v in vals] for k, vals in j.get('imp_ref', {}).items()}
     d.mats = {int(k): [tuple(x) for x in v] for k, v in j.get('mats', {}).items()}
     d.lattice_opt = j.get('lattice_opt', [])
+    if j.get('c10'):
+        d.c10 = [{'mat': i['mat'], 'entries': [(z, _fr(f), sn) for z, f, sn in i['entries']], 'mixed': i['mixed'], 'kwpos': i['kwpos'],
+                  'rho': _fr(i['rho']), 'rho_neg': i['rho_neg']} for i in j['c10']]
     return d
 
 
